@@ -77,14 +77,14 @@ impl Substance {
                 })
         } else {
             for prop in self.properties.properties.values() {
+                // The amount is divided by the property's side, never the
+                // other way around: an amount of zero is a valid amount.
                 if name == prop.output_name {
-                    let input = (&prop.input / &self.amount)
-                        .ok_or_else(|| SubstanceGetError::Generic("Division by zero".to_owned()))?;
-                    if input.dimless() {
-                        let res = (&prop.output / &input).ok_or_else(|| {
+                    if prop.input.unit == self.amount.unit {
+                        let ratio = (&self.amount / &prop.input).ok_or_else(|| {
                             SubstanceGetError::Generic("Division by zero".to_owned())
                         })?;
-                        return Ok(res);
+                        return Ok((&prop.output * &ratio).unwrap());
                     } else {
                         return Err(SubstanceGetError::Conformance(
                             self.amount.clone(),
@@ -92,13 +92,11 @@ impl Substance {
                         ));
                     }
                 } else if name == prop.input_name {
-                    let output = (&prop.output / &self.amount)
-                        .ok_or_else(|| SubstanceGetError::Generic("Division by zero".to_owned()))?;
-                    if output.dimless() {
-                        let res = (&prop.input / &output).ok_or_else(|| {
+                    if prop.output.unit == self.amount.unit {
+                        let ratio = (&self.amount / &prop.output).ok_or_else(|| {
                             SubstanceGetError::Generic("Division by zero".to_owned())
                         })?;
-                        return Ok(res);
+                        return Ok((&prop.input * &ratio).unwrap());
                     } else {
                         return Err(SubstanceGetError::Conformance(
                             self.amount.clone(),
@@ -192,20 +190,18 @@ impl Substance {
             })
         } else {
             let func = |(_k, v): (&String, &Property)| {
-                let input = try_div!(v.input, self.amount, context);
-                let output = try_div!(v.output, self.amount, context);
-                let (name, input, output) = if input.dimless() {
+                let (name, input, output) = if v.input.unit == self.amount.unit {
                     if v.output.unit != unit.unit {
                         return Ok(None);
                     }
-                    let div = try_div!(v.output, input, context);
-                    (v.output_name.clone(), None, div)
-                } else if output.dimless() {
+                    let ratio = try_div!(self.amount, v.input, context);
+                    (v.output_name.clone(), None, (&v.output * &ratio).unwrap())
+                } else if v.output.unit == self.amount.unit {
                     if v.input.unit != unit.unit {
                         return Ok(None);
                     }
-                    let div = try_div!(v.input, output, context);
-                    (v.input_name.clone(), None, div)
+                    let ratio = try_div!(self.amount, v.output, context);
+                    (v.input_name.clone(), None, (&v.input * &ratio).unwrap())
                 } else {
                     return Ok(None);
                 };
@@ -305,14 +301,12 @@ impl Substance {
             })
         } else {
             let func = |(_k, v): (&String, &Property)| {
-                let input = try_div!(v.input, self.amount, context);
-                let output = try_div!(v.output, self.amount, context);
-                let (name, input, output) = if input.dimless() {
-                    let div = try_div!(v.output, input, context);
-                    (v.output_name.clone(), None, div)
-                } else if output.dimless() {
-                    let div = try_div!(v.input, output, context);
-                    (v.input_name.clone(), None, div)
+                let (name, input, output) = if v.input.unit == self.amount.unit {
+                    let ratio = try_div!(self.amount, v.input, context);
+                    (v.output_name.clone(), None, (&v.output * &ratio).unwrap())
+                } else if v.output.unit == self.amount.unit {
+                    let ratio = try_div!(self.amount, v.output, context);
+                    (v.input_name.clone(), None, (&v.input * &ratio).unwrap())
                 } else {
                     return Ok(None);
                 };
